@@ -375,6 +375,23 @@ theorem cumprod_fits (f : Fmt) (hf : f.WF) (hw : 0 < f.nword) (cs pre : List ℤ
     exact hwd
   omega
 
+/-- **cumprod is exact**: the value of the `k`-th element of the result (the rescaled prefix product, read in `cumprodFmt`) is the
+product of the values of the first `k` elements — for every fraction length. -/
+theorem cumprod_value_exact (f : Fmt) (size : ℕ) (pre : List ℤ) (hk1 : 1 ≤ pre.length) (hk : pre.length ≤ size) :
+    valueOf (cumprodFmt f size) (prodL pre * 2 ^ (cumprodFrac f size - (pre.length : ℤ) * f.nfrac).toNat) =
+      (pre.map (valueOf f)).prod := by
+  have he := cumprod_shift_nonneg f size pre.length hk1 hk
+  rw [← prod_value_exact f pre]
+  unfold valueOf cumprodFmt prodFmt
+  simp only [scale_eq]
+  push_cast
+  have h2 : ((2:ℚ) ^ (cumprodFrac f size - (pre.length : ℤ) * f.nfrac).toNat) = (2:ℚ) ^ (cumprodFrac f size - (pre.length : ℤ) * f.nfrac) := by
+    rw [← zpow_natCast, Int.toNat_of_nonneg he]
+  rw [h2, mul_assoc, ← zpow_add₀ (by norm_num : (2:ℚ) ≠ 0)]
+  congr 2
+  ring
+
+
 example : cumprodFmt ⟨true, 1, 3⟩ 2 = ⟨true, 4, 6⟩ ∧ cumprodFmt ⟨true, 3, -2⟩ 3 = ⟨true, 13, -2⟩ ∧ cumprodFmt ⟨true, 4, 2⟩ 3 = ⟨true, 12, 6⟩ := by
   decide +kernel
 
